@@ -14,7 +14,8 @@ CONSTANTS Alphabet, First, MaxLen, Source
 Given == IF Source = "file" THEN ndJsonDeserialize(IOEnv.C06_STRINGS) ELSE <<>>
 
 MCInit == IF Source = "all"
-          THEN \E n \in 0..MaxLen : \E s \in [1..n -> Alphabet] : (n > 0 => s[1] \in First) /\ InitWith(s)
+          THEN \/ InitWith(<<>>)
+               \/ \E n \in 1..MaxLen : \E a \in First : \E t \in [1..(n - 1) -> Alphabet] : InitWith(<<a>> \o t)
           ELSE \E i \in 1..Len(Given) : InitWith(Given[i].s)
 
 MCSpec == MCInit /\ [][Next]_lvars
